@@ -158,6 +158,14 @@ func (fr *Frame) call(site ssa.Instruction, c *ssa.CallCommon, reach T, st *Stat
 		// dynamic call of a function value: closure known in this frame?
 		if ci := fr.findClosure(c.Value); ci != nil {
 			res = fr.inline(site, ci, c.Args, reach, st)
+		} else if fr.libraryFuncValue(c.Value) {
+			// a function value handed out by a library call (e.g. a context.CancelFunc): calling it is a library call
+			// without effect on the module's heap (recorded as an assumption)
+			ex.assumed["function value returned by a library call is called (assumed without effect on the verified heap) at "+ex.pos(site.Pos())] = true
+			for i := 0; i < sig.Results().Len(); i++ {
+				rt := sig.Results().At(i).Type()
+				res = append(res, ex.freshOfType(fmt.Sprintf("f%d_dyn_%d_r%d", fr.id, fr.callOrd[site], i), rt, tTrue, nil))
+			}
 		} else {
 			panic(engineErr("needs-spec", "dynamic call of function value %s at %s in %s", c.Value.Name(), ex.pos(site.Pos()), fr.fn))
 		}
@@ -928,4 +936,18 @@ func (fr *Frame) lockReacquire(key string, c *ssa.CallCommon, reach T, st *State
 			}
 		}
 	}
+}
+
+
+// libraryFuncValue: v is (a component of) the result of a call to a function outside the verified module.
+func (fr *Frame) libraryFuncValue(v ssa.Value) bool {
+	if e, ok := v.(*ssa.Extract); ok {
+		v = e.Tuple
+	}
+	call, ok := v.(*ssa.Call)
+	if !ok {
+		return false
+	}
+	f := call.Call.StaticCallee()
+	return f != nil && f.Pkg != nil && !strings.HasPrefix(f.Pkg.Pkg.Path(), modulePath)
 }
